@@ -78,6 +78,63 @@ async def scenario_frames(handler_frames=None):
         return None
 
 
+async def scenario_order(kind):
+    """valid frames only: a LARGE frame (body > 64 KiB) followed by small ones, under several TCP segmentations, with a listener that is
+    slow for the first message: every frame is delivered once, in the order sent"""
+    with tempfile.TemporaryDirectory() as tmp:
+        for cut in ('one-piece', 'tail-joined', 'bytes-then-rest'):
+            client = make_client(tmp)
+            if kind == 'server':
+                conn = wire_connection(client.network.server_connection)
+                big = M.ExcludedSearchPhrases.Response(phrases=['x' * 50] * 2000).serialize()
+                small = [M.ExcludedSearchPhrases.Response(phrases=[t]).serialize() for t in ('one', 'two', 'three')]
+                label = lambda m: 'big' if len(m.phrases) > 1 else m.phrases[0]      # noqa: E731
+            else:
+                from aioslsk.network.connection import PeerConnection, PeerConnectionType, PeerConnectionState
+                conn = wire_connection(PeerConnection('1.2.3.4', 1, client.network, username='bob', connection_type=PeerConnectionType.PEER))
+                conn.connection_state = PeerConnectionState.ESTABLISHED
+                big = M.PeerUserInfoReply.Request(description='d' * 100000, has_picture=False).serialize()
+                small = [M.PeerPlaceInQueueReply.Request(filename=t, place=1).serialize() for t in ('one', 'two', 'three')]
+                label = lambda m: 'big' if hasattr(m, 'description') else m.filename      # noqa: E731
+            got = []
+
+            async def listener(e, _got=got, _label=label):
+                first = not _got and not getattr(listener, 'busy', False)
+                if first:
+                    listener.busy = True
+                    await asyncio.sleep(0.05)       # the first message takes a while to handle
+                _got.append(_label(e.message))
+            listener.busy = False
+            client.events.register(MessageReceivedEvent, listener)
+            task = asyncio.create_task(conn._message_reader_loop())
+            data = big + b''.join(small)
+            if cut == 'one-piece':
+                conn._reader.feed_data(data)
+            elif cut == 'tail-joined':
+                k = len(big) - 1000                 # the last part of the large body arrives together with the following frames
+                conn._reader.feed_data(data[:k])
+                await asyncio.sleep(0.01)
+                conn._reader.feed_data(data[k:])
+            else:
+                for i in range(8):
+                    conn._reader.feed_data(data[i:i + 1])
+                    await asyncio.sleep(0)
+                conn._reader.feed_data(data[8:])
+            for _ in range(100):
+                await asyncio.sleep(0.01)
+                if len(got) >= 4:
+                    break
+            await asyncio.sleep(0.05)
+            task.cancel()
+            try:
+                await task
+            except BaseException:
+                pass
+            if got != ['big', 'one', 'two', 'three']:
+                return f'{kind} connection, segmentation {cut}: sent big, one, two, three - delivered {got}'
+    return None
+
+
 def scenario_decode():
     from aioslsk.network.connection import PeerConnection, ServerConnection, PeerConnectionState
     for obf in (False, True):
@@ -145,6 +202,10 @@ def main():
     why = scenario_decode()
     if why:
         verdict(True, why, scenario='decode_message_data')
+    for kind in ('server', 'peer'):
+        why = run(scenario_order(kind))
+        if why:
+            verdict(True, why, scenario='valid frames: large body, segmentation, slow handler')
     why = run(scenario_frames())
     if why:
         verdict(True, why, scenario='hostile frames between valid frames')
